@@ -30,7 +30,8 @@ CORPUS = {
     'json': ['{"a": [1, 2, {"b": "x y"}], "c": true, "d": null}', '[1, [2, [3, "four"]], {"k": "v"}]', '"str"', '{"k": {"k": {"k": []}}}'],
     'json5': ['{a: [1, 2, {b: "x"}], c: true, // comment\n d: null}', "[1, [2, 'three'], {k: 0x10}]"],
     'yaml': ['a:\n  - 1\n  - 2\n  - b: "x"\nc: true\n', '- 1\n- [2, 3]\n- {k: v}\n', 'k: "quoted: value"\nl: [1, 2]\n'],
-    'xml': ['<root a="1"><b>text</b><c d="2"/><e><f>x</f></e></root>', '<a><b/><b/></a>'],
+    'xml': ['<root a="1"><b>text</b><c d="2"/><e><f>x</f></e></root>', '<a><b/><b/></a>',
+            '<?xml version="1.0" encoding="UTF-8"?>\n<r><s k="v">t</s></r>'],
     'html': ['<html><body><p class="x">hi</p><br/></body></html>'],
 }
 # documents with multi-byte characters: byte-level truncation cuts inside a character
@@ -49,7 +50,10 @@ DELIMS = set(b'{}[]<>",:\'/=-')
 
 def _plist_corpus():
     return [plistlib.dumps({"a": [1, 2, {"b": "x"}], "c": True}).decode(), plistlib.dumps([1, "two", {"k": 3.5}]).decode(),
-            plistlib.dumps({"caf\u00e9": ["\u4e2d\u6587"]}).decode()]
+            plistlib.dumps({"caf\u00e9": ["\u4e2d\u6587"]}).decode(),
+            # every plist value kind: dates, data, reals, booleans (content that a corrupted delimiter makes unparsable)
+            plistlib.dumps({"when": __import__('datetime').datetime(2020, 1, 2, 3, 4, 5), "blob": b"\x00\x01binary", "r": 2.5, "t": True,
+                            "n": -7}).decode()]
 
 
 def _valid(fmt, text):
@@ -116,7 +120,7 @@ def replay(entry, repo_root):
     r = entry.get('replay') or {}
     if r.get('kind') == 'corrupt':
         data = bytes.fromhex(r['hex']) if 'hex' in r else r['text'].encode('utf-8')
-        f = _run((r['fmt'], data, r['pos']))
+        f = _run((r['fmt'], data, r['pos'], r.get('extra') or []))
         return f[0]['what'] if f else None
     return None
 
@@ -125,14 +129,15 @@ GOOD = {'json': '[1]', 'json5': '[1]', 'yaml': '- 1\n', 'xml': '<a/>', 'html': '
 
 
 def _run(job):
-    fmt, text, pos = job
+    fmt, text, pos = job[:3]
+    extra = list(job[3]) if len(job) > 3 else []
     tf = gt.TempFiles()
     fails = []
     try:
         bad = tf.write(text, SUFFIX[fmt], binary=True)
         good_text = GOOD.get(fmt) or plistlib.dumps([1]).decode()
         good = tf.write(good_text, SUFFIX[fmt])
-        argv = ([bad, good] if pos == 0 else [good, bad]) + ['--no-status', '--no-color', f'--from-{fmt}', f'--to-{fmt}']
+        argv = ([bad, good] if pos == 0 else [good, bad]) + ['--no-status', '--no-color', f'--from-{fmt}', f'--to-{fmt}'] + extra
         rc, out, err, exc = gt.run_cli(argv)
         name = os.path.basename(bad)
         cls = None
@@ -145,9 +150,9 @@ def _run(job):
         elif out.strip():
             cls, what = f'c20-diff-printed:{fmt}', f"stdout is not empty: {out[:80]!r}"
         if cls:
-            fails.append({'what': f"{what} [{fmt} file as {'first' if pos == 0 else 'second'} argument: {text[:70]!r}]", 'class': cls,
+            fails.append({'what': f"{what} [{fmt} file as {'first' if pos == 0 else 'second'} argument{' with ' + ' '.join(extra) if extra else ''}: {text[:70]!r}]", 'class': cls,
                           'input': {'fmt': fmt, 'bytes': repr(text), 'pos': pos},
-                          'replay': {'kind': 'corrupt', 'fmt': fmt, 'hex': text.hex(), 'pos': pos}})
+                          'replay': {'kind': 'corrupt', 'fmt': fmt, 'hex': text.hex(), 'pos': pos, 'extra': extra}})
     finally:
         tf.cleanup()
     return fails
@@ -182,6 +187,10 @@ def bounded(tier, seed, repo_root):
                 rejected += 1
                 jobs.append((fmt, c, 0))
                 jobs.append((fmt, c, 1))
+                if rejected % 7 == 0:
+                    # the message must not depend on the verbosity options
+                    jobs.append((fmt, c, rejected % 2, ['--quiet']))
+                    jobs.append((fmt, c, (rejected + 1) % 2, ['--log-level', 'CRITICAL']))
     res = pmap(_run, jobs, repo_root, job_timeout=60, on_timeout=timeout_failure('C20'))
     fails = [f for fs in res for f in fs]
     return [{
